@@ -24,6 +24,40 @@ Theorem C20_wrapper_engine_independent : forall m o,
 Proof. exact wrapper_engine_independent. Qed.
 Print Assumptions C20_wrapper_engine_independent.
 
+(* the same wrapper, transcribed over an arbitrary engine cursor (Eng/GenIter.v), run over the cursor each
+   engine kind really provides: the radix iterator (mem), the ideal cursor (mem/btree, mem/skiplist), the
+   cursor clamped to the bounds (pebble), and the clamped prefix_same_as_start cursor (rocksdb). All four
+   return range_query; for rocksdb under the precondition that the read is prefix local: both bounds set,
+   >= 3 bytes, same 3-byte prefix — which is what the data layer guarantees for every range read (its bounds
+   are a start and a stop key of one data type in one table, so they share type byte and table-name length) *)
+Theorem C20_engine_range_limit_correct : forall (k : ekind) (m : smap) (o : iter_opts),
+  ksorted m -> read_in_contract k o = true -> engine_range_limit false k m o = Some (range_query m o).
+Proof. exact engine_range_limit_correct. Qed.
+Print Assumptions C20_engine_range_limit_correct.
+
+Theorem C20_rocksdb_prefix_cursor_correct : forall m o,
+  ksorted m -> prefix_local o = true -> engine_range_limit false KPrefix m o = Some (range_query m o).
+Proof. exact prefix_correct. Qed.
+Print Assumptions C20_rocksdb_prefix_cursor_correct.
+
+(* outside that precondition rocksdb does NOT answer like a sorted map (modelled, and checked against the real
+   engine on multi-prefix stores): keys "aaa1","bbb1", forward range with nil bounds stops at the prefix change *)
+Theorem C20_rocksdb_cross_prefix_differs :
+  exists m o, ksorted m /\ prefix_local o = false /\
+    engine_range_limit false KPrefix m o <> Some (range_query m o) /\
+    engine_range_limit false KBounded m o = Some (range_query m o).
+Proof.
+  exists [([97;97;97;49]%N, [1%N]); ([98;98;98;49]%N, [2%N])], (mkopts None None 0%N 0 (-1) false).
+  split; [apply sortedb_ksorted; reflexivity|]. vm_compute. repeat split; auto. discriminate.
+Qed.
+Print Assumptions C20_rocksdb_cross_prefix_differs.
+
+(* the generic wrapper at the ideal cursor is the wrapper of Eng/RangeIter.v *)
+Theorem C20_generic_wrapper_at_ideal : forall legacy fuel c o,
+  g_run_iter ideal_ops fuel (g_wrap ideal_ops legacy c o) = run_iter fuel (wrap legacy c o).
+Proof. intros. rewrite run_ideal, wrap_ideal. reflexivity. Qed.
+Print Assumptions C20_generic_wrapper_at_ideal.
+
 (* the constructor as it was before fix f53be95 violated the statement (defect E1) ... *)
 Theorem C20_wrapper_legacy_refuted :
   exists (m : smap) (o : iter_opts), ksorted m /\ db_range_limit true false m o <> Some (range_query m o).
@@ -254,16 +288,17 @@ Theorem C20_reachable_sorted : forall k ss, ksorted (committed (run_db k db_empt
 Proof. exact reachable_from_empty_sorted. Qed.
 Print Assumptions C20_reachable_sorted.
 
-(* every read of every script is answered as the sorted-map reference answers it (raw cursors with bounds
-   excepted: they are engine specific and not part of the contract) *)
+(* every read of every script is answered as the sorted-map reference answers it (excepted: raw cursors with
+   bounds, which are engine specific, and on rocksdb range reads that are not prefix local and raw cursors) *)
 Theorem C20_script_refines_reference : forall (k : ekind) ss d,
-  ksorted (committed d) -> forallb step_portable ss = true ->
+  ksorted (committed d) -> forallb (step_portable k) ss = true ->
   run_script k d ss = ref_script d ss.
 Proof. exact script_refines_reference. Qed.
 Print Assumptions C20_script_refines_reference.
 
 Theorem C20_script_engine_independent : forall (k1 k2 : ekind) ss,
-  forallb step_portable ss = true -> run_script k1 db_empty ss = run_script k2 db_empty ss.
+  forallb (step_portable k1) ss = true -> forallb (step_portable k2) ss = true ->
+  run_script k1 db_empty ss = run_script k2 db_empty ss.
 Proof. exact script_engine_independent. Qed.
 Print Assumptions C20_script_engine_independent.
 
